@@ -72,6 +72,39 @@ void ezc3d::c3d::print() const
 
 void ezc3d::c3d::write(const std::string& filePath) const
 {
+    // Refuse content which does not fit in the one and two bytes fields of the C3D format, otherwise it would be
+    // silently truncated and the file would read back as something else
+    if (parameters().nbGroups() > 127)
+        throw std::range_error("A C3D file cannot hold more than 127 groups");
+    for (size_t g = 0; g < parameters().nbGroups(); ++g){
+        const ezc3d::ParametersNS::GroupNS::Group& grp(parameters().group(g));
+        if (grp.name().size() > 127 || grp.description().size() > 255)
+            throw std::range_error("The name (127) or the description (255) of the group " + grp.name() + " is too long to be written");
+        for (size_t p = 0; p < grp.nbParameters(); ++p){
+            const ezc3d::ParametersNS::GroupNS::Parameter& param(grp.parameter(p));
+            if (param.name().size() > 127 || param.description().size() > 255)
+                throw std::range_error("The name (127) or the description (255) of the parameter " + param.name() + " is too long to be written");
+            const std::vector<size_t> dim(param.dimension());
+            size_t dataLength(param.type() == ezc3d::DATA_TYPE::CHAR ? 1 : static_cast<size_t>(param.type()));
+            if (dim.size() > 7)
+                throw std::range_error("The parameter " + param.name() + " has more than 7 dimensions");
+            for (size_t d = 0; d < dim.size(); ++d){
+                if (dim[d] > 255)
+                    throw std::range_error("A dimension of the parameter " + param.name() + " is larger than 255");
+                dataLength *= dim[d];
+            }
+            if (dataLength + param.description().size() + dim.size() + 5 > 0xFFFF)
+                throw std::range_error("The parameter " + param.name() + " is larger than a parameter can be");
+            if (param.type() == ezc3d::DATA_TYPE::INT && param.name().compare("DATA_START"))
+                for (size_t i = 0; i < param.valuesAsInt().size(); ++i)
+                    if (param.valuesAsInt()[i] > 32767 || param.valuesAsInt()[i] < -32768)
+                        throw std::range_error("A value of the parameter " + param.name() + " does not fit in 16 bits");
+        }
+    }
+    if (header().nb3dPoints() > 0xFFFF || header().nbAnalogsMeasurement() > 0xFFFF || header().nbAnalogByFrame() > 0xFFFF
+            || (header().nbFrames() > 0 && header().lastFrame() + 1 > 0xFFFF))
+        throw std::range_error("The number of points, analogs or frames does not fit in the header");
+
     std::fstream f(filePath, std::ios::out | std::ios::binary);
 
     // Write the header
